@@ -313,7 +313,7 @@ class C15(PropBase):
             out.append(self.mk("comment-form", T + "\n" + cm + " a 1\n b\n"))
             out.append(self.mk("comment-form", T + "\n a 1" + cm.replace("\n ;", "\n b 1\n c ;") + " b\n"))
         # --- accounts
-        for depth in ((10, 100, 1000) if tier == "quick" else (10, 100, 1000, 5000)):
+        for depth in ((10, 100, 1000, 5000) if tier == "quick" else (10, 100, 1000, 5000, 20000)):
             name = ":".join("a%d" % i for i in range(depth))
             out.append(self.mk("acct-depth:%d" % depth, simple(T, [name + "  1", "b"])))
             out.append(self.mk("acct-depth:%d" % depth, simple(T, ["b  1", name])))
@@ -555,10 +555,8 @@ class C15(PropBase):
         return False
 
     def crash_class(self, case):
-        # F11 (known): stack use of build_account_tree grows with the account depth
-        k = case.get("kind", "")
-        if k.startswith("acct-depth:") and k.split(":")[1].isdigit() and int(k.split(":")[1]) >= 5000:
-            return ":acct-depth"
+        # F11 (fixed in 428f879: build_account_tree walks up in a loop): deep account names are ordinary cases now,
+        # a crash on them is reported like any other crash
         return ""
 
     def nontrivial(self, case, impl):
